@@ -259,7 +259,7 @@ struct Model {
         json e = json::array();
         for (int r = 0; r < A.rows(); ++r)
             for (int c = 0; c < A.cols(); ++c) {
-                long re = std::lround(A(r, c).real() / delta), im = std::lround(A(r, c).imag() / delta);
+                long re = qsat(std::round(A(r, c).real() / delta)), im = qsat(std::round(A(r, c).imag() / delta));
                 if (re != 0 || im != 0) e.push_back(json::array({r, c, re, im}));
             }
         return e;
@@ -343,7 +343,7 @@ struct Model {
                 worst = std::max(worst, (MatrixType(p->getRowMajorValue()) - MatrixType(pc.getRowMajorValue()).adjoint()).cwiseAbs().sum());
                 worst = std::max(worst, (MatrixType(p->getRowMajorValue()) - MatrixType(p->getColMajorValue())).cwiseAbs().sum());
             }
-            out.push_back(json::array({"adjoint", json::array({json::array({0, i})}), json::array(), (long)std::lround(worst / delta)}));
+            out.push_back(json::array({"adjoint", json::array({json::array({0, i})}), json::array(), qsat(std::round(worst / delta))}));
         }
         for (int i = 0; i < M; ++i) for (int j = 0; j < M; ++j) {
             QuadraticOperator A(*IC, *S, *H, i, j); A.prepare(); A.compute();
@@ -400,16 +400,16 @@ struct Model {
             double resid = (prepared[b] * V - V * Ed).cwiseAbs().maxCoeff() / hnorm;
             double ortho = (V.adjoint() * V - MatrixType::Identity(V.rows(), V.cols())).cwiseAbs().maxCoeff();
             json Es = json::array(), Eq = json::array();
-            for (int k = 0; k < E.size(); ++k) { Es.push_back(dstr(E(k))); Eq.push_back((long)std::floor(E(k) / qd)); gmin = std::min(gmin, E(k)); }
+            for (int k = 0; k < E.size(); ++k) { Es.push_back(dstr(E(k))); Eq.push_back(qsat(std::floor(E(k) / qd))); gmin = std::min(gmin, E(k)); }
             // getEigenState(k) must be column k of the stored matrix
             double colmis = 0;
             for (int k = 0; k < E.size(); ++k) colmis = std::max(colmis, (hp.getEigenState(k) - V.col(k)).cwiseAbs().maxCoeff());
-            blocks.push_back({{"E", Es}, {"Eq", Eq}, {"residq", (long)std::floor(resid / delta)}, {"orthoq", (long)std::floor(ortho / delta)},
-                              {"rows", (int)V.rows()}, {"cols", (int)V.cols()}, {"n", (int)E.size()}, {"colmis", (long)std::floor(colmis / delta)}});
+            blocks.push_back({{"E", Es}, {"Eq", Eq}, {"residq", qsat(std::floor(resid / delta))}, {"orthoq", qsat(std::floor(ortho / delta))},
+                              {"rows", (int)V.rows()}, {"cols", (int)V.cols()}, {"n", (int)E.size()}, {"colmis", qsat(std::floor(colmis / delta))}});
         }
         r["eig"] = blocks;
         r["ground"] = dstr(H->getGroundEnergy());
-        r["groundq"] = (long)std::floor(H->getGroundEnergy() / qd);
+        r["groundq"] = qsat(std::floor(H->getGroundEnergy() / qd));
         RealVectorType all = H->getEigenValues();
         json a = json::array();
         for (int k = 0; k < all.size(); ++k) a.push_back(dstr(all(k)));
